@@ -33,8 +33,9 @@ mcTickDs == {1, 5}
 mcProjOfName == [n \in {"A_t1", "A_s1", "A_n1"} |-> "A"] @@ [n \in {"B_t1", "B_s2"} |-> "B"] @@
                 [n \in {"C_s1"} |-> "C"] @@ [n \in {"D_t2"} |-> "D"]
 mcOps == {"CreateTopic", "DeleteTopic", "CreateSub", "DeleteSub", "Publish", "Pull", "Ack", "CreateSnap",
-          "DeleteSnap", "SeekSnap", "Get", "List", "Tick", "PruneDeletedSubscriptions", "PruneDeletedTopics"}
+          "DeleteSnap", "SeekSnap", "Get", "List", "Tick", "PruneDeletedSubscriptions", "PruneDeletedTopics",
+          "RaceCreate"}
 W0 == [op \in mcOps |-> 3]
-mcWeights == [W0 EXCEPT !["CreateTopic"] = 4, !["CreateSub"] = 8, !["Get"] = 6, !["List"] = 10, !["CreateSnap"] = 5, !["Publish"] = 5,
+mcWeights == [W0 EXCEPT !["CreateTopic"] = 4, !["RaceCreate"] = 8, !["CreateSub"] = 8, !["Get"] = 6, !["List"] = 10, !["CreateSnap"] = 5, !["Publish"] = 5,
                         !["Pull"] = 5, !["Tick"] = 2, !["PruneDeletedTopics"] = 1, !["PruneDeletedSubscriptions"] = 1]
 =============================================================================
